@@ -81,13 +81,39 @@ func dumpDb(db *db19.Database, squeeze bool) string {
 		}
 		var first []string
 		for i := range ts.Indexes {
+			ix := &ts.Indexes[i]
+			var flds []int
+			for _, c := range ix.Columns {
+				flds = append(flds, slicesIndex(ts.Columns, c))
+			}
 			var rows []string
+			var prev []string
 			size := int64(0)
 			it := rt.IndexIter(ts.Table, i)
 			for it.Next(rt); !it.Eof(); it.Next(rt) {
-				rec := rt.GetRecord(it.CurOff())
+				off := it.CurOff()
+				rec := rt.GetRecord(off)
 				size += int64(len(rec))
 				rows = append(rows, canonRow(ts.Columns, func(i int, _ string) string { return canonVal(rec.GetRaw(i)) }))
+				// the scan through index i must be ordered by index i's own
+				// columns (packed values sort bytewise, field by field), and
+				// every row must be found again through every key
+				cur := make([]string, len(flds))
+				for j, f := range flds {
+					cur[j] = strings.Clone(rec.GetRaw(f))
+				}
+				if prev != nil {
+					c := slicesCompare(prev, cur)
+					if c > 0 || c == 0 && ix.Mode == 'k' {
+						fmt.Fprintf(&sb, " ORDER-VIOLATION in %s: %q then %q\n", idxs[i], prev, cur)
+					}
+				}
+				prev = cur
+				if ix.Mode == 'k' {
+					if found := rt.Lookup(ts.Table, i, ix.Ixspec.Key(rec)); found == nil || found.Off != off {
+						fmt.Fprintf(&sb, " LOOKUP-MISS in %s for %q\n", idxs[i], cur)
+					}
+				}
 			}
 			sort.Strings(rows)
 			if i == 0 {
@@ -102,6 +128,18 @@ func dumpDb(db *db19.Database, squeeze bool) string {
 				fmt.Fprintf(&sb, " INDEX-MISMATCH %s:\n  %s\n", idxs[i], strings.Join(rows, "\n  "))
 			}
 		}
+		// and every row reached through the first index must be found through every other key
+		it0 := rt.IndexIter(ts.Table, 0)
+		for it0.Next(rt); !it0.Eof(); it0.Next(rt) {
+			rec := rt.GetRecord(it0.CurOff())
+			for i := range ts.Indexes {
+				if ix := &ts.Indexes[i]; ix.Mode == 'k' {
+					if found := rt.Lookup(ts.Table, i, ix.Ixspec.Key(rec)); found == nil || found.Off != it0.CurOff() {
+						fmt.Fprintf(&sb, " LOOKUP-MISS in %s for row at %d\n", idxs[i], it0.CurOff())
+					}
+				}
+			}
+		}
 		for _, r := range first {
 			sb.WriteString(" " + r + "\n")
 		}
@@ -112,4 +150,22 @@ func dumpDb(db *db19.Database, squeeze bool) string {
 		}
 	}
 	return sb.String()
+}
+
+func slicesIndex(list []string, x string) int {
+	for i, v := range list {
+		if v == x {
+			return i
+		}
+	}
+	return -1
+}
+
+func slicesCompare(a, b []string) int {
+	for i := range a {
+		if c := strings.Compare(a[i], b[i]); c != 0 {
+			return c
+		}
+	}
+	return 0
 }
